@@ -27,6 +27,8 @@ TECH = {
     "C15": "finite-domain (label-set) evaluation of row and donor selectors, CFG ordering of zeroing/threshold/normalisation for loop and matrix forms",
     "C16": "comparator structure (direct and block-accumulated), backward slice of the mute gain, range rule, call-site column agreement, stale scratch-buffer dataflow",
     "C17": "polynomial transfer function of the window generator, partition identity, count formula, interval-event model of the splicing amplitudes evaluated per window class",
+    "C19": "(partial) pairing discipline of the matched-index vectors (one mask), one-to-one second assignment pass (axis order, both row and column blanked), normal form of the reported linear map / drift / coarse offset",
+    "C20": "(partial) chunk tiling identity of the Venn counter (searchsorted bounds, chunk count, re-basing), group / fold agreement in stack, index-range partition of the Savitzky-Golay loops, pad / crop identity of the frequency-domain smoother",
     "C18": "transform-length rule, parity-split crop / take / arange identities, un-padding bound versus transform length, filter algebra, half-spectrum length identities",
 }
 
